@@ -21,8 +21,8 @@ func init() {
 	register(&Rule{ID: "C12.sub", Floor: 1,
 		Text: "the file system returned by FailFS.Sub carries the receiver's failure function (whole-struct copy of the receiver, or an explicit copy of failFunc): a failure plan or the read-only plan keeps applying through the view",
 		Run:  c12Sub})
-	register(&Rule{ID: "C16.trunc", Floor: 1,
-		Text: "CopyFileHash opens the destination so that it holds exactly the copied bytes afterwards: through Create, or OpenFile with a constant flag containing O_CREATE|O_TRUNC and write access",
+	register(&Rule{ID: "C16.trunc", Floor: 2, Also: []string{"C02"},
+		Text: "CopyFileHash opens the destination so that it holds exactly the copied bytes afterwards: through Create, or OpenFile with a constant flag containing O_CREATE|O_TRUNC and write access; and the generic Create behind the Create method of the module's file systems opens with such a flag",
 		Run:  c16Trunc})
 	register(&Rule{ID: "C17.volkey", Floor: 4, Also: []string{"C11"},
 		Text: "every index of the volumes map of MemFS uses a volume name: the result of VolumeName(...) / PathIterator.VolumeName(), or the DefaultVolume constant — never a caller's raw path",
@@ -244,6 +244,41 @@ func c16Trunc(rc *RuleCtx) {
 	} else {
 		rc.bad(cons, f.Pos(), why)
 	}
+	// Create itself: the generic helper behind the Create method of the file systems of the module
+	cf := rc.C.fn("avfs", "Create")
+	cons = "avfs.Create opens with O_CREATE|O_TRUNC"
+	if cf == nil || len(cf.Blocks) == 0 {
+		rc.anchor("avfs.Create")
+		return
+	}
+	ok, why = false, "Create does not open the file through OpenFile"
+	eachCall(cf, func(ci ssa.CallInstruction) {
+		fn := calleeFunc(ci)
+		if fn == nil || nm(fn) != "OpenFile" {
+			return
+		}
+		args := callArgs(ci)
+		if len(args) < 2 {
+			return
+		}
+		flag, isC := constInt(args[1])
+		need := int64(os.O_CREATE | os.O_TRUNC)
+		switch {
+		case !isC:
+			why = "Create opens with a flag that is not a constant"
+		case flag&need != need:
+			why = fmt.Sprintf("Create opens with flag %#x, without O_CREATE|O_TRUNC: an existing file keeps its content, so a copy over a longer destination leaves the old tail and is reported as successful", flag)
+		case flag&int64(os.O_WRONLY|os.O_RDWR) == 0:
+			why = "Create does not open for writing"
+		default:
+			ok = true
+		}
+	})
+	if ok {
+		rc.good(cons, cf.Pos(), "constant flag with O_CREATE|O_TRUNC and write access")
+	} else {
+		rc.bad(cons, cf.Pos(), why)
+	}
 }
 
 func c17VolKey(rc *RuleCtx) {
@@ -349,7 +384,7 @@ func c17ErrCmp(rc *RuleCtx) {
 }
 
 func init() {
-	register(&Rule{ID: "C05.rootpair", Floor: 3, Also: []string{"C07", "C01"},
+	register(&Rule{ID: "C05.rootpair", Floor: 3, Also: []string{"C07", "C01", "C11"},
 		Text: "the path walk of MemFS returns the root directory as its own parent: a call that removes an entry from the parent result of a walk (Remove, RemoveAll, Rename) does so only after testing that the (parent, child) results of that walk are distinct objects - otherwise the root is locked twice, or re-inserted below one of its descendants (a cyclic tree)",
 		Run:  c05RootPair})
 }
@@ -1278,8 +1313,8 @@ func c16Pool(rc *RuleCtx) {
 }
 
 func init() {
-	register(&Rule{ID: "C01.cwd", Floor: 2, Also: []string{"C07", "C11"},
-		Text: "a fresh MemFS / OrefaFS has a working directory: the constructor calls SetCurDir with the root of the default volume (a non-empty constant, or the volume name followed by the separator) - with an empty working directory a relative path is not made absolute, the walk skips its first byte (Mkdir(\"foo\") creates /oo) and Stat(\"\") panics",
+	register(&Rule{ID: "C01.cwd", Floor: 6, Also: []string{"C07", "C11", "C17"},
+		Text: "a fresh MemFS / OrefaFS has a working directory: the constructor calls SetCurDir with the root of the default volume (a non-empty constant, or the volume name followed by the separator) - with an empty working directory a relative path is not made absolute, the walk skips its first byte (Mkdir(\"foo\") creates /oo) and Stat(\"\") panics; every other SetCurDir of the two packages (Chdir of the file system and of an open directory) hands over an absolute path: Path() of the walk's iterator, the first result of Abs, or a handle field assigned only such values - never the name a handle was opened with, nor an index key",
 		Run:  c01Cwd})
 }
 
@@ -1337,7 +1372,107 @@ func c01Cwd(rc *RuleCtx) {
 		} else {
 			rc.bad(cons, set.Pos(), "the working directory set by the constructor is not provably a root path")
 		}
+		// every other place that sets the working directory hands over an absolute path
+		ctor := f
+		for _, g := range rc.C.srcFuncs(pk) {
+			if g == ctor {
+				continue
+			}
+			n := 0
+			eachCall(g, func(ci ssa.CallInstruction) {
+				fn := calleeFunc(ci)
+				if fn == nil || fn.Name() != "SetCurDir" {
+					return
+				}
+				n++
+				cons := fmt.Sprintf("%s SetCurDir#%d absolute", funcName(g), n)
+				a := callArgs(ci)
+				if len(a) != 1 {
+					return
+				}
+				if why, ok := absolutePathValue(rc, pk, a[0], 0); ok {
+					rc.good(cons, ci.Pos(), why)
+				} else {
+					rc.bad(cons, ci.Pos(), "the working directory is set to a value that is not an absolute path of this file system ("+why+"): relative names are joined to it by Abs, so a relative value, or an index key (a volume root without its separator), sends every later relative call to the wrong place")
+				}
+			})
+		}
 	}
+}
+
+// absolutePathValue: v is the absolute path computed by a walk (Path() of its iterator), the first result of Abs, a
+// non-empty constant / root expression, or a handle field that is only ever assigned such values.
+func absolutePathValue(rc *RuleCtx, pk string, v ssa.Value, depth int) (string, bool) {
+	if depth > 3 {
+		return "too deep", false
+	}
+	why := ""
+	for _, o := range originsOf(v) {
+		switch x := o.(type) {
+		case *ssa.Call:
+			fn := calleeFunc(x)
+			if fn != nil && fn.Name() == "Path" {
+				if r := callRecv(x); r != nil {
+					if n := namedOf(r.Type()); n != nil && n.Obj().Name() == "PathIterator" {
+						why = "Path() of the walk's iterator"
+						continue
+					}
+				}
+			}
+			return "result of " + prettyVal(x, 0), false
+		case *ssa.Extract:
+			if c, ok := x.Tuple.(*ssa.Call); ok && x.Index == 0 {
+				if fn := calleeFunc(c); fn != nil && fn.Name() == "Abs" {
+					why = "first result of Abs"
+					continue
+				}
+			}
+			return "component of " + prettyVal(x.Tuple, 0), false
+		case *ssa.UnOp:
+			fa, ok := x.X.(*ssa.FieldAddr)
+			if !ok || x.Op != token.MUL {
+				return prettyVal(x, 0), false
+			}
+			fv := fieldVar(fa)
+			if fv == nil {
+				return prettyVal(x, 0), false
+			}
+			nst := 0
+			for _, g := range rc.C.srcFuncs(pk) {
+				bad := ""
+				eachInstr(g, func(in ssa.Instruction) {
+					st, ok := in.(*ssa.Store)
+					if !ok {
+						return
+					}
+					sfa, ok := st.Addr.(*ssa.FieldAddr)
+					if !ok || fieldVar(sfa) != fv {
+						return
+					}
+					nst++
+					if k, isC := strip(st.Val).(*ssa.Const); isC && k.Value != nil && k.Value.ExactString() == `""` {
+						return // cleared on close
+					}
+					if w, ok := absolutePathValue(rc, pk, st.Val, depth+1); !ok {
+						bad = "field " + fv.Name() + " is assigned " + w + " in " + funcName(g)
+					}
+				})
+				if bad != "" {
+					return bad, false
+				}
+			}
+			if nst == 0 {
+				return "field " + fv.Name() + " is never assigned", false
+			}
+			why = "handle field " + fv.Name() + ", assigned only absolute paths"
+		default:
+			return prettyVal(o, 0), false
+		}
+	}
+	if why == "" {
+		return "no origin", false
+	}
+	return why, true
 }
 
 func init() {
